@@ -110,7 +110,7 @@ func c21(c *hx.Ctx) {
 	c.Agree = "c21_agree"
 	c.Rule = "(a) sequential scripts against the real client behind a scripted relay, weighted towards acks, clears, cancellations and overlapping Sends, compared step by step with the model; (b) real relay server + 2 or 3 real clients, concurrent histories with reconnects, detach/re-attach, back pressure, gated receivers, cancellations, honest and message-dropping relays: every successful Send must be preceded by the partner's Recv returning the same body; (c) the back-pressure history of the stale-ack defect as a regression; non-trivial = script with a Send or a returned Recv"
 	ackSeen := map[int]bool{}
-	runScripts(c, c.N, &profC21, fixedC21(), func(g *genState, desc map[string]any) {
+	runScripts(c, c.N*2/3, &profC21, fixedC21(), true, func(g *genState, desc map[string]any) {
 		for _, v := range g.named {
 			c.Failf("c21-ack-clear-not-named", desc, "%s", v)
 		}
@@ -118,6 +118,25 @@ func c21(c *hx.Ctx) {
 			c.Failf("c21-send-ok-without-ack", desc, "%s", v)
 		}
 		_ = ackSeen
+	})
+	// composition scripts: real relay between two real clients, step by step against the composed model
+	runWorldScripts(c, c.N/3, 3, 4, nil, func(r *worldRunner, desc map[string]any) {
+		// a finished Send must have been received by the partner (any earlier Recv result with the same body)
+		for x := 0; x < 2; x++ {
+			for _, s := range r.sends[x] {
+				if done, ok, m := s.result(); done && ok {
+					found := false
+					for _, rc := range r.recvs[1-x] {
+						if d2, ok2, m2 := rc.result(); d2 && ok2 && m2.GetSignedMsg().EqualVT(m.GetSignedMsg()) {
+							found = true
+						}
+					}
+					if !found {
+						c.Failf("c21-send-ok-before-partner-recv", desc, "a Send of side %d reported success but no Recv of the partner returned its message", x)
+					}
+				}
+			}
+		}
 	})
 	// (c) regression of the stale-ack history
 	ids := newIdentities(c.Rng, 3)
